@@ -411,8 +411,9 @@ public:
     // unreadable / malformed / mismatching material fails with EPROTO
     Outcome broken(Case &c, Dir &envd, const std::string &envpath, uint32_t a)
     {
-        int kind = a % 5;
-        static const char *KN[] = {"certificate file missing", "certificate file is garbage", "key does not match the certificate", "certificate path is a directory", "trust file missing"};
+        int kind = a % 7;
+        static const char *KN[] = {"certificate file missing", "certificate file is garbage", "key does not match the certificate", "certificate path is a directory", "trust file missing",
+                                   "trust bundle whose last entry is cut short", "trust bundle whose last entry is corrupt"};
         std::string cert = envpath + "/cert.pem", key = envpath + "/key.pem", tc = envpath + "/tc.pem";
         std::string saved_cert = pki::read_file(cert), saved_key = pki::read_file(key), saved_tc = pki::read_file(tc);
         switch (kind) {
@@ -420,7 +421,20 @@ public:
         case 1: write_atomic(cert, "-----BEGIN CERTIFICATE-----\nthis is not base64 at all\n-----END CERTIFICATE-----\n"); break;
         case 2: write_atomic(key, g_s.key[(envd.cert + 1) % NSETS]); break;
         case 3: unlink(cert.c_str()); mkdir(cert.c_str(), 0755); break;
-        default: unlink(tc.c_str()); break;
+        case 4: unlink(tc.c_str()); break;
+        case 5: {
+            // a valid CA followed by one caught in mid-write: no END line
+            std::string second = g_s.root[(envd.tc + 1) % NSETS]->cert_pem;
+            write_atomic(tc, saved_tc.substr(0, saved_tc.find_last_not_of('\n') + 1) + "\n" + second.substr(0, second.size() / 2));
+            break;
+        }
+        default: {
+            std::string second = g_s.root[(envd.tc + 2) % NSETS]->cert_pem;
+            size_t mid = second.size() / 2;
+            second[mid] = '!'; second[mid + 1] = '*';
+            write_atomic(tc, saved_tc.substr(0, saved_tc.find_last_not_of('\n') + 1) + "\n" + second);
+            break;
+        }
         }
         Ep s;
         s.tag = 2;
